@@ -245,8 +245,8 @@ class Builder(object):
     if r < 0.93:
       case.tags.append('error_user_input')
       return 'objtypes.RaisedException(ValueError(1), user_input=%s)' % self.value(case, depth + 1)
-    if case.heavy:
-      return self.atom(case)
+    if case.heavy or (self.engine and self.R.random() < 0.5):
+      return self.atom(case)      # (in a live document every heavy value is encoded and compared once per row and operation)
     case.heavy = True
     if r < 0.96:
       return self.recursive(case, depth)
